@@ -1,27 +1,13 @@
+use palette::{convert::FromColorUnclamped, encoding, rgb::Rgb, Hsv, Hsl, Srgb};
 fn main() {
-    let ok = pv::reference::spaces::linsrgb_to_oklab([0.0,0.0,1.0]);
-    let h0 = ok[2].atan2(ok[1]);
-    for d in [-0.2, -0.1, -0.03, -1e-2, -1e-3, -1e-5] {
-        let h: f64 = h0 + d;
-        let (a,b) = (h.cos(), h.sin());
-        let (k0,k1,k2,k3,k4) = (1.19086277, 1.76576728, 0.59662641, 0.75515197, 0.56771245);
-        let (wl,wm,ws) = (4.0767416621, -3.3077115913, 0.2309699292);
-        let mut s = k0 + k1 * a + k2 * b + k3 * a * a + k4 * a * b;
-        let k_l = 0.3963377774 * a + 0.2158037573 * b;
-        let k_m = -0.1055613458 * a - 0.0638541728 * b;
-        let k_s = -0.0894841775 * a - 1.2914855480 * b;
-        print!("d {:e}: poly {} ", d, s);
-        for _ in 0..5 {
-            let (l_, m_, s_) = (1.0 + s * k_l, 1.0 + s * k_m, 1.0 + s * k_s);
-            let (l, m, sv) = (l_ * l_ * l_, m_ * m_ * m_, s_ * s_ * s_);
-            let (l_ds, m_ds, s_ds) = (3.0 * k_l * l_ * l_, 3.0 * k_m * m_ * m_, 3.0 * k_s * s_ * s_);
-            let (l_ds2, m_ds2, s_ds2) = (6.0 * k_l * k_l * l_, 6.0 * k_m * k_m * m_, 6.0 * k_s * k_s * s_);
-            let f = wl * l + wm * m + ws * sv;
-            let f1 = wl * l_ds + wm * m_ds + ws * s_ds;
-            let f2 = wl * l_ds2 + wm * m_ds2 + ws * s_ds2;
-            s -= f * f1 / (f1 * f1 - 0.5 * f * f2);
-            print!("-> {} (f {:e}) ", s, f);
-        }
-        println!();
-    }
+    let a = Rgb::<encoding::AdobeRgb, f64>::new(0.0, 1.0, 1.0);
+    let s = Srgb::<f64>::from_color_unclamped(a);
+    println!("adobe cyan -> srgb {:?}", s);
+    println!("-> hsv {:?}", Hsv::<encoding::Srgb, f64>::from_color_unclamped(s));
+    println!("-> hsl {:?}", Hsl::<encoding::Srgb, f64>::from_color_unclamped(s));
+    let h = Hsv::<encoding::AdobeRgb, f64>::new(180.0, 1.0, 1.0);
+    println!("hsv<adobe> -> hsv<srgb> {:?}", Hsv::<encoding::Srgb, f64>::from_color_unclamped(h));
+    let r = Srgb::<f64>::new(-0.5, 1.0, 0.7);
+    println!("srgb {:?} -> hsv {:?}", r, Hsv::<encoding::Srgb, f64>::from_color_unclamped(r));
+    println!(" -> back {:?}", Srgb::<f64>::from_color_unclamped(Hsv::<encoding::Srgb, f64>::from_color_unclamped(r)));
 }
